@@ -6,7 +6,7 @@
 From SV Require Import Model.Rows Model.Chunk Model.OverlapKernels Model.Overlap.
 From SV Require Import Spec.WindowLocal Spec.OverlapSpec.
 From SV Require Import Proof.OverlapBasic Proof.OverlapProof Proof.WindowLocalProof Proof.OverlapExamples.
-From SV Require Import Proof.OverlapAligned Proof.GroupLocalProof Proof.OverlapCorollaries.
+From SV Require Import Proof.OverlapAligned Proof.GroupLocalProof Proof.OverlapMulti Proof.OverlapCorollaries.
 
 (* For disjoint sorted positive-length input rows R, EVERY contiguous well-formed chunking cs of the
    run (chunks shorter than the window, rows longer than the window, empty and zero-duration chunks),
@@ -71,6 +71,44 @@ Theorem C09_overlap_multi_output_aligned : forall P cs items,
   ow_iter P cs = Ok items -> Forall item_aligned items.
 Proof. exact overlap_items_aligned. Qed.
 Print Assumptions C09_overlap_multi_output_aligned.
+
+(* Multi-output plugins whose outputs are all window-local and can be cut at the same times (same_cuts:
+   e.g. every output has one row per input row): cache_beyond settles in one pass, iter succeeds, and
+   EVERY output's chunk stream is contiguous over the run and carries that output's computation over
+   the whole run. *)
+Theorem C09_overlap_multi_output_equals_whole_run :
+  forall wtuple wl wr ml mr outs orun otgt sw R a b dt run cs,
+  0 <= wl -> 0 <= wr -> ml <= 2 * wl -> mr <= 2 * wr -> (1 < length outs)%nat ->
+  (forall o, In o outs -> window_local ml mr (oo_f o)) -> same_cuts (map oo_f outs) ->
+  dsp R -> chunking_of R a b dt run cs ->
+  exists items,
+    ow_iter (mk_ow_params wtuple wl wr outs orun otgt sw) cs = Ok items /\
+    forall k o, nth_error outs k = Some o ->
+      flat_map crows (out_stream k items) = oo_f o R /\
+      contiguous_from a (out_stream k items) /\ last_end a (out_stream k items) = b /\
+      Forall wf (out_stream k items).
+Proof. exact overlap_multi_correct. Qed.
+Print Assumptions C09_overlap_multi_output_equals_whole_run.
+
+Theorem C09_per_row_outputs_same_cuts : forall hs : list (row -> list row -> Z), same_cuts (map f_row hs).
+Proof. exact f_row_same_cuts. Qed.
+Print Assumptions C09_per_row_outputs_same_cuts.
+
+(* Not proved: outputs whose cut sets are only NESTED (e.g. neighbour count + group former, where every
+   cut of the group output is a cut of the count output).  cache_beyond then needs up to two passes.
+   These configurations are covered by the correspondence check only (dual_group cases). *)
+Definition nested_cuts (fs : list (list row -> list row)) : Prop :=
+  forall f1 f2, In f1 fs -> In f2 fs ->
+    (forall I x, dsp I -> straddled (f1 I) x -> straddled (f2 I) x) \/
+    (forall I x, dsp I -> straddled (f2 I) x -> straddled (f1 I) x).
+Definition C09_full_overlap_multi_output_nested_cuts : Prop :=
+  forall wtuple wl wr ml mr outs orun otgt sw R a b dt run cs,
+  0 <= wl -> 0 <= wr -> ml <= 2 * wl -> mr <= 2 * wr -> (1 < length outs)%nat ->
+  (forall o, In o outs -> window_local ml mr (oo_f o)) -> nested_cuts (map oo_f outs) ->
+  dsp R -> chunking_of R a b dt run cs ->
+  exists items,
+    ow_iter (mk_ow_params wtuple wl wr outs orun otgt sw) cs = Ok items /\
+    forall k o, nth_error outs k = Some o -> flat_map crows (out_stream k items) = oo_f o R.
 
 (* DESIGN section 7, T6: the final `yield self.cached_results` never yields None, and a run with no
    input chunk fails (ValueError "Cannot work with empty input buffer") before reaching it. *)
